@@ -1,12 +1,14 @@
 import UpfVerif.Driver.Gtpu
 import UpfVerif.Driver.Flags
 import UpfVerif.Driver.FlowDesc
+import UpfVerif.Driver.Drv
 import UpfVerif.Driver.Ctl
 import UpfVerif.Driver.CtlProps
 open UpfVerif UpfVerif.Driver
 
 /-- stateless evaluators, by function name -/
 def evalT (fn : String) (args : List String) (impl : String) : Option Verdict :=
+  if fn.startsWith "drv." then Drv.eval fn args impl else
   match fn with
   | "gtpu.encode" => evalGtpu args impl
   | "fd.parse" => evalFlowDesc args impl
